@@ -63,6 +63,7 @@ func hasKindOrLogical(s ref.Schema) (narrow, logical, fixed bool) {
 var (
 	c13Scratch []byte
 	c13ReadBuf = avro.NewReadBuf(nil)
+	c13WriteBuf = avro.NewWriteBuf(make([]byte, 0, 128))
 )
 
 func runC13(c writeCase) (bool, []string, error) {
@@ -101,13 +102,36 @@ func runC13(c writeCase) (bool, []string, error) {
 	if err != nil {
 		return nt, labels, fmt.Errorf("a second codec from the same schema value (out given as a pointer to the struct) is refused: %v", err)
 	}
+	// one WriteBuf for every value, Reset in between (what the Encoder does between
+	// blocks). Before the values under test, a value the schema cannot hold (a 64-bit
+	// number in an "int" column) goes through the same codec and buffer, if the pair has
+	// such a column: whatever the library makes of THAT write, the writes after the
+	// Reset are judged as always
+	if len(c.Values) > 0 {
+		for si, sf := range c.Schema.Fields {
+			if sf.Type.Kind != "int" || sf.Type.LogicalType != "" {
+				continue
+			}
+			for ti, tf := range c.Target.Fields {
+				if tf.AvroName() == sf.Name && (tf.T.K == "int64" || tf.T.K == "int") && ti < len(c.Values[0].Fields) {
+					probe := c.Values[0]
+					probe.Fields = append([]spec.ValueSpec(nil), probe.Fields...)
+					probe.Fields[ti] = spec.ValueSpec{I: 1<<40 + int64(si)}
+					pv := spec.New(c.Target, probe)
+					_ = protect(func() error { first.Write(c13WriteBuf, pv.UnsafePointer()); return nil })
+					labels = append(labels, "out_of_range_write_first")
+				}
+			}
+		}
+	}
 	for i, vs := range c.Values {
 		codec = first
 		if i%2 == 1 {
 			codec = second
 		}
 		in := spec.New(c.Target, vs)
-		wb := avro.NewWriteBuf(nil)
+		wb := c13WriteBuf
+		wb.Reset()
 		codec.Write(wb, in.UnsafePointer())
 		out := append([]byte(nil), wb.Bytes()...)
 		d, err := ref.DecodeExact(c.Schema, out)
